@@ -100,11 +100,11 @@ def gen(rng, tier, i):
             c.update({"proto": proto, "target": "%s:%d" % (oip, oport), "connector": "d", "seed": seed})
         elif kind == "deny":
             hs, proto = sc.client_handshake(li, oip, 9, variant=variant)
-            ops = [dict(o, on_fail="continue") for o in hs] + [op("recv_eof", timeout_ms=20000, label="eof")]
+            ops = [dict(o, on_fail="continue") for o in hs] + [op("recv_eof", timeout_ms=6000, label="eof")]
             c.update({"proto": proto, "target": "%s:9" % oip, "connector": None, "error": True})
         elif kind == "refused":
             hs, proto = sc.client_handshake(li, dead_ip, 81, variant=variant)
-            ops = [dict(o, on_fail="continue") for o in hs] + [op("recv_eof", timeout_ms=20000, label="eof")]
+            ops = [dict(o, on_fail="continue") for o in hs] + [op("recv_eof", timeout_ms=6000, label="eof")]
             c.update({"proto": proto, "target": "%s:81" % dead_ip, "connector": "d", "error": True})
         elif kind == "abort-hs":
             hs, proto = sc.client_handshake(li, oip, oport, variant="5p" if li["kind"] == "socks" else None)
@@ -114,10 +114,10 @@ def gen(rng, tier, i):
             c.update({"proto": proto, "target": None, "connector": None, "hsfail": True})
         elif kind == "badreq":
             junk = rng.choice([b"GET / HTTP/1.1\r\nHost: x\r\n\r\n", b"\x07\x01\x00", b"CONNECT nohostport HTTP/1.1\r\n\r\n", b"\r\n\r\n", b"\x05\x01\x00\x05\x01\x00\x09"])
-            ops = [send(junk), op("recv_eof", timeout_ms=20000, label="eof")]
+            ops = [send(junk), op("recv_eof", timeout_ms=6000, label="eof")]
             c.update({"proto": "raw", "target": None, "connector": None, "hsfail": True})
         elif kind == "tlsfail":
-            ops = [send(b"\x16\x03\x01\x00\x05hello-this-is-not-tls"), op("recv_eof", timeout_ms=20000, label="eof")]
+            ops = [send(b"\x16\x03\x01\x00\x05hello-this-is-not-tls"), op("recv_eof", timeout_ms=6000, label="eof")]
             c.update({"proto": "raw", "target": None, "connector": None, "never_accepted": True})
         elif kind == "udp":
             ops = [send(rc.socks5_greeting([0])), op("recv_n", n=2, label="method"), send(rc.socks5_request(3, "0.0.0.0", 0)), op("recv_socks5_reply", label="reply"),
@@ -142,7 +142,10 @@ def gen(rng, tier, i):
         else:
             sc.api_call("rot%d" % t, "POST", "/api/logrotate", start_ms=t)
     polls = []
-    for k in range(rng.randint(1, 6)):
+    # (no /live polls on the kernel lane: there a poll that meets a stalled handshake wedges the proxy until the next
+    # timer of the *harness* fires, because I/O readiness is only noticed when the paused clock steps; the underlying
+    # defect - the API blocking the data plane - is C14's subject and is judged on the in-memory lane)
+    for k in range(rng.randint(1, 6) if not splice else 0):
         t = rng.randint(0, 10 + span + 9000)
         sc.api_call("live%d" % k, "GET", "/api/live", start_ms=t)
         polls.append({"cid": "live%d" % k, "t": t})
@@ -252,6 +255,14 @@ def oracle(plan, out):
             e = R.op_by_label(cid, "s2c")
             if e is None or e["res"] != "ok":
                 continue
+            # ... and only when the origin verifiably received every client byte (a tunnel torn down early,
+            # e.g. by an idle timeout, has no well-defined "bytes relayed" from the harness' side)
+            srv = [x for x in R.records if x.get("op") == "serve_tagged" and x.get("tag_seed") == c.get("seed")]
+            if not srv:
+                continue
+            e0 = R.op_by_index(srv[0]["conn"], srv[0]["i"] + "r0")
+            if e0 is None or e0["res"] != "ok":
+                continue
             cb = r.get("client_stat", {}).get("read_bytes")
             sb = r.get("server_stat", {}).get("read_bytes")
             if cb != c["c2s"] or sb != c["s2c"]:
@@ -259,9 +270,11 @@ def oracle(plan, out):
                 V.append(Violation(ID, "wrong-byte-count", "C16/wrong-byte-count/%s/%s" % (early, io),
                                    "%s: relayed %d bytes client->server and %d server->client, record says %s and %s" % (desc, c["c2s"], c["s2c"], cb, sb)))
     # history is newest first and a suffix-free subset of the log
-    times = [last_time(r) for r in hrecs]
-    if any(a < b for a, b in zip(times, times[1:])):
-        v("history-order", "history is not newest-first: last-state times %s" % times[:8])
+    # (records are pushed when the connection object is dropped, which the GC notices once per second: only
+    # inversions of more than 2.5 s between terminal timestamps are judged)
+    times = [last_time(r) for r in hrecs if r.get("state") and r["state"][-1]["state"] in ("Terminated", "ErrorOccured")]
+    if any(a + 2500 < b for a, b in zip(times, times[1:])):
+        v("history-order", "history is not newest-first: terminal-state times %s" % times[:8])
     logged = set(ids)
     for r in hrecs:
         if r["id"] not in logged:
@@ -288,7 +301,8 @@ def oracle(plan, out):
             src = conn.get("local")
             if t_close is not None and tpoll > t_close + 8_000_000 and src in live_src:
                 v("live-after-close", "%s from %s is still listed as live %.1fs after it ended" % (c["cid"], src, (tpoll - t_close) / 1e6))
-            if c["kind"] in ("ok", "ok-early", "idle") and t_close is not None and t_open + 50_000 < tpoll < t_close - 50_000 and src not in live_src:
+            margin = 2_500_000 if meta["splice"] else 50_000  # the kernel lane notices an accept only when the clock steps
+            if c["kind"] in ("ok", "ok-early", "idle") and t_close is not None and t_open + margin < tpoll < t_close - margin and src not in live_src:
                 v("live-missing", "%s from %s is open (%.3f..%.3fs) but missing from /live polled at %.3fs" % (c["cid"], src, t_open / 1e6, t_close / 1e6, tpoll / 1e6))
     return V
 
